@@ -411,6 +411,10 @@ def _ivs(ivs):
 
 
 def run(ctx):
+    # no hidden state: what this property is about keeps nothing at module level between calls (memo tables keyed by less than
+    # the value depends on, caches of the outside world, counters) -- a verdict on one call must hold for every later call
+    from .. import rules as _rules
+    _rules.check_hidden_state(ctx, 'C03.9', ['bits.ecmath.point_add', 'bits.ecmath.point_scalar_mul', 'bits.keys.key', 'bits.keys.pub', 'bits.utils.compute_point', 'bits.utils.privkey_int'])
     check_constants(ctx)
     check_helpers(ctx)
     check_point_add(ctx)
